@@ -44,10 +44,12 @@ ModelVerdicts(ev) ==
   \* consumer get_model_sparsity: proportion of exact zeros among the exported weights of the weight-bearing layers
   \o (IF ev.spden > 0 /\ ev.spz # ev.zeros THEN <<"sparsity_is_not_the_share_of_zero_weights">> ELSE <<>>)
 Pw(k) == 2^k
+\* qinv: gamma*rsqrt(var+eps) after the batch-norm layer's inverse quantizer (= gam * 2^(2-J) codes when there is none);
+\* b / beta: the QUANTIZED bias and beta; bnw_ok: the fused batch-norm layer itself was exported with quantized parameters
 BnVerdicts(ev) ==
-  IF \E c \in 1..Len(ev.gam) : ev.inv[c] # ev.gam[c] * Pw(2 - ev.J[c])
-     \/ ev.fb[c] # (ev.b[c] - ev.mean[c]) * ev.gam[c] * Pw(2 - ev.J[c]) + ev.beta[c]
-  THEN <<"bn_fusing_terms_are_not_the_bn_algebra">> ELSE <<>>
+  (IF \E c \in 1..Len(ev.gam) : ev.inv[c] # ev.qinv[c] \/ ev.fb[c] # (ev.b[c] - ev.mean[c]) * ev.qinv[c] + ev.beta[c]
+   THEN <<"bn_fusing_terms_are_not_the_bn_algebra">> ELSE <<>>)
+  \o (IF ev.bnw_ok # 1 THEN <<"fused_bn_layer_not_quantized_by_export">> ELSE <<>>)
 Verdicts(ev) == CASE ev.kind = "role" -> RoleVerdicts(ev) [] ev.kind = "model" -> ModelVerdicts(ev) [] OTHER -> BnVerdicts(ev)
 Init == i = 1
 Next == /\ i <= Len(Tr)
